@@ -388,6 +388,26 @@ func genExtract(r *rand.Rand) logqIn {
 func genRewrite(r *rand.Rand) logqIn {
 	in := logqIn{Sel: []matcherIn{}, Stages: []stageIn{}, Queries: [][]stageIn{}, Limit: -1, Start: []int{1699999000, 0}, End: []int{1700009000, 0},
 		Caps: []CapsIn{{Label: []string{}, Line: []string{}}}}
+	if r.Intn(8) == 0 {
+		// drop / keep by value on labels that a parser stage just extracted from numbers: the value is the label's text as the
+		// engine itself shows it (the numbers are written the way the engine prints them: 2.5e-7, 1e+21, 0.5, 12)
+		eps, _ := json.Marshal(&ReAST{T: "eps"})
+		nums := []string{"2.5e-7", "1e+21", "0.5", "12", "1.5e-9", "-3"}
+		for i := 0; i < 1+r.Intn(3); i++ {
+			d := &jval{K: "obj"}
+			d.Fields = append(d.Fields, [2]any{Ints(B("ratio")), jnum(pick(r, nums))}, [2]any{Ints(B("n")), jnum(pick(r, nums))}, [2]any{Ints(B("k")), jstr("v")})
+			rec := jsonRecord(r, i+1, d)
+			rec.Line, rec.Jcanon, rec.Jmal = B(d.enc()), true, false
+			in.Recs = append(in.Recs, rec)
+		}
+		st := stageIn{T: []string{"drop", "keep"}[r.Intn(2)], Labels: IntsList{}}
+		st.Matchers = []matcherIn{{Label: B(pick(r, []string{"ratio", "n"})), Op: []string{"eq", "neq"}[r.Intn(2)], Val: B(pick(r, nums)), Re: eps}}
+		if r.Intn(2) == 0 {
+			st.Labels = IntsList{B("k")}
+		}
+		in.Stages = []stageIn{{T: "json"}, st}
+		return in
+	}
 	names := []string{"a", "b", "c"}
 	vals := []string{"", "x", "xy", "X y"}
 	n := 1 + r.Intn(4)
